@@ -6,7 +6,9 @@ package mc
 
 import (
 	"fmt"
+	"runtime"
 	"sync"
+	"time"
 )
 
 const (
@@ -180,6 +182,29 @@ func (s *sched) Gate(site string) {
 	t := s.cur()
 	t.selN = 0
 	s.park(t, site, kindSync)
+}
+
+// LockWait is the hook behind verifLock: the mutex was taken. Under control
+// the goroutine parks like at any gate and tries again when released. While
+// the world is taken down it polls a little and then ends for good: a mutex
+// that is never released must not keep the bubble from ending.
+func (s *sched) LockWait(n int) {
+	if s.isRoot() {
+		runtime.Gosched()
+		return
+	}
+	t := s.cur()
+	s.mu.Lock()
+	free := s.passThrough(t)
+	s.mu.Unlock()
+	if free {
+		if n > 100 {
+			runtime.Goexit()
+		}
+		time.Sleep(time.Millisecond)
+		return
+	}
+	s.park(t, "lockwait", kindSync)
 }
 
 func (s *sched) GateSel(site string, n int) int {
